@@ -269,6 +269,20 @@ func (g *Gen) genKtx(at string) string {
 	if g.e.absorbRW(t, r) != nil {
 		return ""
 	}
+	if at == "live" && g.r.Chance(1, 4) {
+		// a transaction that carries a token transfer AND a read / write set: refused for a stale read, it must not have
+		// moved any token either
+		if s := g.e.specNow(); s != nil {
+			if sp := spendable(s, from, g.ledgerHeight(), false); len(sp) > 0 {
+				k := sp[g.r.Intn(len(sp))]
+				tx, off := refOf(k)
+				u := s.U[k]
+				t.Ins = []InRef{{Tx: tx, Off: off, Addr: from, Amt: new(big.Int).Set(u.Amt), Frozen: u.Frozen}}
+				us := g.users()
+				t.Outs = []OutInfo{{Addr: us[g.r.Intn(len(us))], Amt: new(big.Int).Set(u.Amt)}}
+			}
+		}
+	}
 	return t.line("ktx", "at="+at+" prog="+prog)
 }
 
@@ -406,7 +420,11 @@ func (g *Gen) scenario(p *Profile) {
 				if amt > 1 && g.r.Bool() {
 					amt = 1 + int64(g.r.Intn(int(amt)))
 				}
-				g.emit(fmt.Sprintf("selrace %s %d", from, amt))
+				if g.r.Chance(1, 3) {
+					g.emit(fmt.Sprintf("selrace %s %d x=1", from, amt))
+				} else {
+					g.emit(fmt.Sprintf("selrace %s %d", from, amt))
+				}
 			}
 		case "balrace":
 			if line, ok := g.genXfer(e.specNow(), g.ledgerHeight(), ""); ok {
@@ -416,11 +434,35 @@ func (g *Gen) scenario(p *Profile) {
 				if g.r.Chance(1, 2) && len(t.Outs) > 0 && t.Outs[0].Addr != "$" {
 					addr = t.Outs[0].Addr
 				}
-				if g.r.Chance(1, 2) {
-					g.emit(fmt.Sprintf("balrace %s %d g2=1", addr, t.Idx))
-				} else {
-					g.emit(fmt.Sprintf("balrace %s %d", addr, t.Idx))
+				opt := ""
+				if g.r.Chance(1, 3) {
+					// another admission touching the same address first (not observed in between)
+					s2 := e.specNow()
+					s2.apply(t)
+					if l2, ok := g.genXfer(s2, g.ledgerHeight(), ""); ok {
+						t2 := (*TxInfo)(nil)
+						g.emit(l2)
+						t2 = w.Txs[len(w.Txs)-1]
+						touches := t2.From == addr
+						for _, o := range t2.Outs {
+							if o.Addr == addr {
+								touches = true
+							}
+						}
+						if touches {
+							// t first (pre), then the race on t2
+							g.emit(fmt.Sprintf("balrace %s %d pre=%d", addr, t2.Idx, t.Idx))
+							break
+						}
+					}
 				}
+				if g.r.Chance(1, 2) {
+					opt += " g2=1"
+				}
+				if g.r.Chance(1, 3) {
+					opt += " nc=1"
+				}
+				g.emit(fmt.Sprintf("balrace %s %d%s", addr, t.Idx, opt))
 			}
 		case "xfer-hold":
 			// build a valid transaction now, submit it later (it may be stale by then)
